@@ -5,10 +5,20 @@ Recipe
 {"types": {"t0": ["U", n] | ["RG", n, dist] | ["RG2", [n1, n2], [d1, d2]] | ["T", a, dist, b], ...},
  "mtypes": {"m0": {"x": "t0", "y": "t1"}},          # MultiDomain-valued intermediate types
  "keys":  {"a": "t0", "b": "t0h", ...},             # input key -> type ("<t>h" = harmonic partner of <t>)
- "expr":  tree,                                     # see build()
+ "expr":  tree,                                     # see build() / build_energy()
  "x":     {"a": [...], ...},                        # full position (flat values per key)
  "y":     {"a": [...], ...},                        # second position (value check of the specialised operator)
  "adapter": {"min": "NewtonCG", "iters": 2, "wm": true}}   # energy subs only
+
+Field-valued nodes: ["var", key] ["duck", key, chain-on-["id", type]] ["ptw", f, x] ["pow", p, x]
+["clip", lo, hi, x] ["scale", c, x] ["neg", x] ["diag", vec, x] ["addf", vec, x, plus?] ["addc", c, x]
+["dense", M, to_type, x] ["hart", x] ["sum", x] ["integrate", x] ["mul"|"add"|"sub"|"div"|"vdot", l, r]
+["pack", mtype, {tkey: x}] ["get", tkey, x] ["subst", zkey, ztype, inner, outer, use_partial_insert]
+["jax", template, [keys]].   Energy nodes: ["gauss", data|None, icov|None, model] ["poisson", counts, model]
+["bernoulli", bits, model] ["invgamma", beta, alpha, model] ["studentt", theta, model]
+["vcge", full_fisher, res_model, icov_model] ["vcge_raw", res_key, icov_key, full_fisher]
+["jaxlh", [ka, kb], data] ["lhsum", e1, e2] ["escale", c, e] ["ham", ic_iter|None, prior_dtype, e]
+["esum", e1, e2] ["avg", [offsets], e] ["scalar", scalar-valued field expression].
 
 The interpreter builds the NIFTy operator `op`; the oracle is metamorphic/differential against the
 un-specialised operator: for EVERY non-empty proper subset K of op.domain.keys()
@@ -37,7 +47,7 @@ import numpy as np
 from hypothesis import strategies as st
 
 import nifty.cl as ift
-from vlib import Discard, Sub, Violation, close, require
+from vlib import Discard, Sub, close, require
 from vlib import nx
 from vlib import strat as S
 
@@ -428,13 +438,22 @@ class _Quiet:
         np.seterr(**self._err)
 
 
+def _real_dense(linop, what):
+    """dense matrix of a LinearOperator between real fields; it must be real"""
+    M = nx.dense(linop, nx.TIMES, dtype=FLT)
+    if np.iscomplexobj(M):
+        require(not np.any(M.imag != 0), what + "_complex", "real operator, real input: complex matrix")
+        M = M.real
+    return M
+
+
 def _dense_jac(lin):
-    return np.real(nx.dense(lin.jac, nx.TIMES, dtype=FLT))
+    return _real_dense(lin.jac, "jacobian")
 
 
 def _dense_metric(lin):
     m = lin.metric
-    return None if m is None else np.real(nx.dense(m, nx.TIMES, dtype=FLT))
+    return None if m is None else _real_dense(m, "metric")
 
 
 def _cols(dom, keys):
@@ -560,7 +579,8 @@ def _finish(rec, keys, cut_tags, deep_cut, classes):
     classes.add(f"nkeys_{len(keys)}")
     nb = []
     binary_nodes(rec["expr"], nb)
-    return dict(nontrivial=bool(cut_tags) and len(nb) >= 2 and deep_cut, classes=sorted(classes))
+    nontrivial = bool(cut_tags) and ((len(nb) >= 2 and deep_cut) or bool(cut_tags & {"jax", "jaxlh"}))
+    return dict(nontrivial=nontrivial, classes=sorted(classes))
 
 
 def check_field(rec):
@@ -630,7 +650,7 @@ def _adapter_relations(op, E, Kset, keys, cpart, want_metric, where, ref=None):
         require((E.metric is None) == (Mref is None), "adapter_metric_presence", tag)
         if Mref is not None:
             require(E.metric.domain is vdom, "adapter_metric_domain", f"{tag}: {E.metric.domain}")
-            ME = np.real(nx.dense(E.metric, nx.TIMES, dtype=FLT))
+            ME = _real_dense(E.metric, "adapter_metric")
             close(ME, Mref[np.ix_(vc, vc)], "adapter_metric", tol=TOL, detail=tag)
             x = nx.unflat(vdom, np.arange(1, len(vc) + 1, dtype=FLT) / 4)
             close(nx.flat(E.apply_metric(x)), ME @ nx.flat(x), "adapter_apply_metric", tol=TOL, detail=tag)
@@ -924,14 +944,6 @@ def _binary_combine(ctx, t, l, liv, r, riv):
     return _tame(ctx, ["div", l, r], _imul(liv, (1 / riv[1], 1 / riv[0])))
 
 
-def _split_must(ctx, must_l):
-    """distribute the keys that must appear over two operands"""
-    a, b = [], []
-    for i, k in enumerate(must_l):
-        (a if ctx.draw(st.booleans()) else b).append(k)
-    return a, b
-
-
 def gen(ctx, t, depth, scope, must=(), linear=False):
     """expression of type t containing (at least) leaves of all keys in `must`.
     returns (node, interval)."""
@@ -1151,7 +1163,7 @@ def gen_lh_tree(ctx, depth, scope, must, allow_raw=None):
     return gen_likelihood(ctx, depth, scope, must)
 
 
-def _universe(draw, energy):
+def _universe(draw):
     nkeys = draw(st.sampled_from([2, 2, 3, 3, 4]))
     ntypes = draw(st.sampled_from([1, 1, 2]))
     types = {}
@@ -1194,7 +1206,7 @@ def _values(draw, ctx, keys):
 
 @st.composite
 def field_recipes(draw, tier, target="any"):
-    types, mtypes, keys, pos = _universe(draw, False)
+    types, mtypes, keys, pos = _universe(draw)
     ctx = Ctx(draw, types, mtypes, keys, pos)
     depth = draw(st.integers(2, 3 if tier == "quick" else 4))
     if mtypes and draw(st.integers(0, 2)) == 0:
@@ -1214,7 +1226,7 @@ def _adapter(draw):
 
 @st.composite
 def energy_recipes(draw, tier, top="lh"):
-    types, mtypes, keys, pos = _universe(draw, True)
+    types, mtypes, keys, pos = _universe(draw)
     names = sorted(keys)
     raw = None
     if top in ("lh", "ham") and draw(st.integers(0, 3)) == 0:
@@ -1318,11 +1330,11 @@ SUBS = [
         rule="purely linear trees (SumOperator / ChainOperator / BlockDiagonal paths of the library's linear "
              "algebra with multi-key domains); non-trivial as for field_ops"),
     Sub(name="likelihoods", check=check_energy, strategy=lambda tier: energy_recipes(tier, "lh"),
-        quick=210, thorough=8000, shards=3,
+        quick=180, thorough=8000, shards=4,
         rule="likelihood energies (sums, scaled, raw VariableCovarianceGaussianEnergy) incl. metric and "
              "EnergyAdapter(constants=K) before/after minimiser steps; non-trivial as for field_ops"),
     Sub(name="hamiltonians", check=check_energy, strategy=lambda tier: energy_recipes(tier, "ham"),
-        quick=240, thorough=8000, shards=6,
+        quick=240, thorough=8000, shards=5,
         rule="StandardHamiltonian (with/without ic_samp, prior sampling dtypes), AveragedEnergy, generic energy "
              "sums incl. metric and EnergyAdapter(constants=K); non-trivial as for field_ops"),
     Sub(name="jax_ops", check=check_jax_field, strategy=lambda tier: jax_recipes(tier, False), jax=True,
